@@ -2,14 +2,14 @@
 (***************************************************************************)
 (* Model of Session.tla: 2 date objects, 2 chart handles, 3 instants (the  *)
 (* first of them on a day that fix-ups touch), 2 days, 4 fix-up records.   *)
-(* MC_Session.cfg checks the frame conditions on the full graph (the       *)
-(* history is hidden by the VIEW); MBT_Session.cfg prints every session of *)
+(* MC_Session.cfg checks the frame conditions and the history invariants    *)
+(* (no VIEW: every history is a state); MBT_Session.cfg prints each session of *)
 (* MaxSteps calls, which bin/plans.py replays on real objects.             *)
 (***************************************************************************)
 EXTENDS Session, TLC
 CONSTANTS MaxSteps
 VARIABLES hist
-vars == << live, of, holv, hist >>
+vars == << live, of, holv, names, hist >>
 MCInstDate(t) == IF t = 1 THEN 1 ELSE 0
 Init == SInit /\ hist = << >>
 Step(a, A) == Len(hist) < MaxSteps /\ A /\ hist' = Append(hist, a)
@@ -18,9 +18,10 @@ Next ==
   \/ \E h \in Handles, o \in Objs : Step(<< "Handle", h, o >>, Handle(h, o))
   \/ \E h \in Handles, s \in {1, 2} : Step(<< "SetSect", h, s >>, SetSect(h, s))
   \/ \E k \in FixIds : Step(<< "Fix", k, 0 >>, Fix(k))
+  \/ \E v \in {0, 1} : Step(<< "Rename", v, 0 >>, Rename(v))
   \/ \E n \in {1, 2} : Step(<< "Bad", n, 0 >>, Bad)
 Spec == Init /\ [][Next]_vars
-view == << live, of, holv, Len(hist) >>
+view == << live, of, holv, names, Len(hist) >>
 \* the sect of an object equals the last SetSect through one of ITS handles (2 if none): the history decides it,
 \* which is what "a view of the object" means
 LastSect(o) ==
@@ -37,5 +38,8 @@ SectIsLastSet == \A o \in Objs : live[o].t # 0 => live[o].sect = LastSect(o)
 HolIsLastFix == \A d \in Dates :
   LET ks == { i \in 1..Len(hist) : hist[i][1] = "Fix" /\ FixDate(hist[i][2]) = d }
   IN holv[d] = IF ks = {} THEN 0 ELSE hist[CHOOSE i \in ks : \A j \in ks : j <= i][2]
+NamesIsLastRename ==
+  LET ks == { i \in 1..Len(hist) : hist[i][1] = "Rename" }
+  IN names = IF ks = {} THEN 0 ELSE hist[CHOOSE i \in ks : \A j \in ks : j <= i][2]
 EmitLeaf == Len(hist) < MaxSteps \/ PrintT(<< "EDGE", hist >>)
 =============================================================================
